@@ -34,7 +34,7 @@ from tools.lib import common
 
 PROP_ID = "C03"
 SOURCES = ["src/ampform/helicity/__init__.py", "src/ampform/helicity/naming.py", "src/ampform/helicity/decay.py"]
-PROP_MODULES = ["Ampverif.Props.C03"]
+PROP_MODULES = ["Ampverif.Props.C03", "Ampverif.Props.C03Racah"]
 DRIVER = "Ampverif/Drivers/C03.lean"
 MAX2 = 6  # doubled spin bound of the CG table (fixed: Lemmas/C03CGBlocks.lean names the blocks)
 # (perFlippedNode, guardOnFlipped, perNode) of Model/C03ParityRule.lean
@@ -687,7 +687,11 @@ MANIFEST = {
                  "regenerated exact Clebsch-Gordan table (T3) + independent two-formalism oracle",
     "design_ref": "DESIGN.md §3 C03",
     "text": (
-        "Proof. Unbounded (any number of transitions/nodes, any spins, any registration order, all naming flags): "
+        "Proof. Props/C03Racah.lean (kernel tie of the all-spin formula to SymPy): Racah's closed formula, the object of "
+        "C03_cg_parity_all_spins, equals sign*sqrt(sq) with EXECUTABLE rational sign/sq for all arguments (C03_racah_exact) and "
+        "equals the Clebsch-Gordan table regenerated from the installed SymPy on EVERY admissible key with 2j1,2j2 <= 6 "
+        "(49 blocks, decide +kernel on exact rationals, absent keys = 0; C03_racah_is_sympy_cg_partial). "
+        "Unbounded (any number of transitions/nodes, any spins, any registration order, all naming flags): "
         "C03_prefactor_is_flipped_product (sound rule: factor of a chain = product of eta over exactly its mapped nodes), "
         "C03_register_unique_partner (the registration loop gives every suffix at most one non-trivially mapped partner, "
         "under the decidable name-consistency condition evaluated on every case), C03_ratio / C03_ratio_int (two chains with "
